@@ -79,23 +79,25 @@ def run_cases(chk, cases, label, old_model=False):
             continue
         rows.append((case, obs, term))
         chk.count(1, nontrivial_key=G.nontrivial_key(case, obs))
-        chk.dist("op:" + case["op"]["name"])
+        chk.dist("op:" + case["op"]["name"] + (":" + case["op"]["raw"] if case["op"]["name"] == "raw" else ""))
         chk.dist("backends:%d" % len(case["backends"]))
         chk.dist("outcome:" + (obs["outcome"][0] if obs["outcome"][0] == "ok" else "raise-" + obs["outcome"][1]))
         for f in G.fault_tags(case, obs):
             chk.dist("fault:" + f)
     for case, obs, _ in rows[:3]:
         chk.sample({"case": case, "observed": {"outcome": obs["outcome"], "log": obs["log"]}})
+    raw = bool(rows) and rows[0][0]["op"]["name"] == "raw"
+    assert all((r[0]["op"]["name"] == "raw") == raw for r in rows), "raw and typed cases are evaluated separately"
     shards = [rows[i : i + SHARD] for i in range(0, len(rows), SHARD)]
-    fn = "case_ok_old" if old_model else "case_ok"
+    fn = "rcase_ok" if raw else "case_ok_old" if old_model else "case_ok"
     texts = [
         vlib.COQ_HEADER
-        + "From Common Require Import Res Cases.\nFrom Routing Require Import Model Obs Spec.\n"
-        + "Definition cases : list case :=\n " + vlib.g_list([t for _, _, t in shard]) + ".\n"
+        + "From Common Require Import Res Cases.\nFrom Routing Require Import Model Obs Spec Validation Front ObsFront.\n"
+        + f"Definition cases : list {'rcase' if raw else 'case'} :=\n " + vlib.g_list([t for _, _, t in shard]) + ".\n"
         + f"Eval vm_compute in mismatches {fn} cases.\n"
         # the theorem predicate Spec.trace_ok_b (proved for every model observation:
         # C09_trace_predicate_holds) evaluated on the IMPLEMENTATION's observations
-        + "Eval vm_compute in mismatches trace_ok_case cases.\n"
+        + f"Eval vm_compute in mismatches {'rtrace_ok_case' if raw else 'trace_ok_case'} cases.\n"
         for shard in shards
     ]
     results = vlib.coq_eval_many(AREA, texts, jobs=12)
@@ -170,6 +172,30 @@ def scheme_stage(chk):
             ok = False
             chk.corr_failure("scheme", {"string": shard[i][0], "urlparse_scheme": shard[i][1]})
     chk.obligation("corr:scheme", "correspondence", ok)
+
+
+def constants_stage(chk):
+    """validation.SEARCH_FIELDS / DISTINCT_FIELDS and the harness's query dicts against the
+    model's copies (Front.search_fields, distinct_field_table, squery_val)."""
+    import c09_emit as E
+    import c09_impl as I
+    import c09_validation as V
+    from common.vlib import g_list, g_str
+    from mopidy.internal import validation
+
+    sf = g_list([g_str(k) for k in validation.SEARCH_FIELDS])
+    df = g_list([f"({g_str(k)}, {'true' if t is int else 'false'})" for k, t in validation.DISTINCT_FIELDS.items()])
+    toks = g_list([f"({E.SQUERY[tok]}, {V.spec_term(V.spec_of(I.QUERIES[tok]))})" for tok in E.SQUERY])
+    text = (vlib.COQ_HEADER + "From Common Require Import Res Str Cases.\n"
+            "From Routing Require Import Model Validation Front ObsFront.\n"
+            f"Eval vm_compute in (if consts_ok {sf} {df} then @nil Z else [1]).\n"
+            f"Eval vm_compute in mismatches token_ok {toks}.\n")
+    rc, out = vlib.coq_eval(AREA, text, name="consts")
+    lists = vlib.parse_all_lists(out)
+    ok = rc == 0 and lists == [[], []]
+    if not ok:
+        chk.corr_failure("constants", {"validation.py constants or query dicts": "differ from Front.v"}, out[-1500:])
+    chk.obligation("corr:constants", "correspondence", ok)
 
 
 def _without_base(x):
@@ -321,7 +347,10 @@ def run(chk):
     if chk.replay:  # ./check C09 --replay replays/C09-<hash>.json : only the recorded case(s)
         cases = replay_cases(chk.replay)
         chk.dist("replayed", len(cases))
-        chk.obligation("corr:routing", "correspondence", run_cases(chk, cases, "replay"))
+        typed = [c for c in cases if c["op"]["name"] != "raw"]
+        raws = [c for c in cases if c["op"]["name"] == "raw"]
+        ok = (not typed or run_cases(chk, typed, "replay")) and (not raws or run_cases(chk, raws, "replay-raw"))
+        chk.obligation("corr:routing", "correspondence", ok)
         M.finish(chk, I)
         return
     cases = load_corpus()
@@ -336,6 +365,13 @@ def run(chk):
     cases += [G.gen_case(rng) for _ in range(n)]
     ok = run_cases(chk, cases, "main")
     chk.obligation("corr:routing", "correspondence", ok)
+    # the raw front door (Front.run_raw): ill-typed and well-typed raw arguments
+    raw_cases = [G.gen_raw_case(rng) for _ in range(1200 if chk.tier == "quick" else 20000)]
+    chk.obligation("corr:front_door", "correspondence", run_cases(chk, raw_cases, "raw"))
+    constants_stage(chk)
+    import c09_validation
+
+    c09_validation.stage(chk)
     scheme_stage(chk)
     pykka_stage(chk)
     if chk.tier == "thorough":
